@@ -16,7 +16,8 @@ Every operation returns `none` where the C++ would have undefined behaviour: a m
 `doHash`, a bucket pointer that refers to no node of the map (dangling), `back()`/`begin()` of an
 empty list.  `XMapProofs.lean` shows that under the invariant none of these is reachable.
 
-The capacity of the individual bucket vectors (touched by `compactBuckets`) is not modelled.
+`bcaps` carries the capacity of every bucket vector (plain `push_back` growth in `rehash`, the reserve of
+`doCreateEntry`, the shrink of `compactBuckets`); it is observable through the derived class of the harness.
 Core Lean only (this file is linked into the `xm_c20` driver).
 -/
 namespace XalanModel.Containers
@@ -31,6 +32,7 @@ structure XMap (κ ν : Type) where
   entries : List (MEntry κ ν) := []
   free : List Nat := []
   buckets : List (List Nat) := []
+  bcaps : List Nat := []           -- capacity of each bucket vector (parallel to `buckets`)
   size : Nat := 0
   eraseCount : Nat := 0
   eraseThreshold : Nat := 50
@@ -85,6 +87,21 @@ def find (hash : κ → Nat) (m : XMap κ ν) (k : κ) : Option (Option (MEntry 
 def pushBucket (bs : List (List Nat)) (i id : Nat) : List (List Nat) :=
   bs.modify i (· ++ [id])
 
+/-- capacity of a `XalanVector` after `push_back` on `len` elements with capacity `cap` (`doPushBack`:
+room / `init` / `grow` to `⌊1.6·len + 0.5⌋`) -/
+def pushCap (len cap : Nat) : Nat :=
+  if len < cap then cap else if len = 0 then 1 else max len ((16 * len + 5) / 10)
+
+/-- capacity after the `reserve` that `doCreateEntry` performs before it links the entry (3252d20):
+a full bucket is given room for one (empty) or twice its size -/
+def reserveCap (len cap : Nat) : Nat :=
+  if len = cap then (if len = 0 then 1 else max cap (len * 2)) else cap
+
+/-- capacity of a bucket after `compactBuckets` (`calculateNewBucketCapacity`, copy with that capacity, swap) -/
+def compactCap (len cap : Nat) : Nat :=
+  let extra := cap - len
+  if extra > len then (if len = 0 then 5 else max len extra) else cap
+
 /-- `rehash()`: `size_type(1.6 * size())` buckets (1.6·n is never within rounding distance below an
 integer, so the truncation is `⌊8n/5⌋`), every *live* entry re-inserted in list order. -/
 def rehash (hash : κ → Nat) (m : XMap κ ν) : Option (XMap κ ν) :=
@@ -92,12 +109,17 @@ def rehash (hash : κ → Nat) (m : XMap κ ν) : Option (XMap κ ν) :=
   if newSize = 0 then none
   else
     let table := m.entries.foldl (fun t e => pushBucket t (hash e.key % newSize) e.id) (List.replicate newSize [])
-    some { m with buckets := table }
+    -- the new bucket vectors start without a buffer and grow by plain `push_back`
+    let caps := m.entries.foldl (fun (tc : List (List Nat) × List Nat) e =>
+        let i := hash e.key % newSize
+        (pushBucket tc.1 i e.id, tc.2.modify i (pushCap ((tc.1.getD i []).length))))
+      (List.replicate newSize [], List.replicate newSize 0)
+    some { m with buckets := table, bcaps := caps.2 }
 
 /-- `doCreateEntry(key, data)` -/
 def createEntry (hash : κ → Nat) (m : XMap κ ν) (k : κ) (v : ν) : Option (XMap κ ν × MEntry κ ν) :=
   -- if there are no buckets, create initial minimum set of buckets
-  let m1 := if m.buckets.isEmpty then { m with buckets := List.replicate m.minBuckets [] } else m
+  let m1 := if m.buckets.isEmpty then { m with buckets := List.replicate m.minBuckets [], bcaps := List.replicate m.minBuckets 0 } else m
   -- if the load factor has been reached, rehash
   let m2? := if m1.lfNum * m1.size / m1.lfDen > m1.buckets.length then rehash hash m1 else some m1
   m2?.bind fun m2 =>
@@ -108,7 +130,8 @@ def createEntry (hash : κ → Nat) (m : XMap κ ν) (k : κ) (v : ν) : Option 
   | some id =>
     let e : MEntry κ ν := ⟨id, k, v⟩
     some ({ m3 with free := m3.free.dropLast, entries := m3.entries ++ [e],
-                    buckets := pushBucket m3.buckets index id, size := m3.size + 1 }, e)
+                    buckets := pushBucket m3.buckets index id, size := m3.size + 1,
+                    bcaps := m3.bcaps.modify index (reserveCap ((m3.buckets.getD index []).length)) }, e)
 
 /-- `doRemoveEntry(pos)`: destroy the value, splice the node to the end of the free list, mark it
 erased, `--m_size`.  The bucket pointer stays. -/
@@ -117,7 +140,8 @@ def removeEntry (m : XMap κ ν) (id : Nat) : XMap κ ν :=
 
 /-- `compactBuckets()`: drop every pointer whose node is erased -/
 def compactBuckets (m : XMap κ ν) : XMap κ ν :=
-  { m with buckets := m.buckets.map fun b => b.filter fun id => !(m.free.contains id) }
+  let nb := m.buckets.map fun b => b.filter fun id => !(m.free.contains id)
+  { m with buckets := nb, bcaps := (nb.zip m.bcaps).map fun bc => compactCap bc.1.length bc.2 }
 
 /-- `doErase(pos)` -/
 def doErase (m : XMap κ ν) (id : Nat) : XMap κ ν :=
@@ -172,6 +196,7 @@ def copyOf (hash : κ → Nat) (rhs : XMap κ ν) : Option (XMap κ ν) :=
   insertAll hash rhs.toList
     { lfNum := rhs.lfNum, lfDen := rhs.lfDen, minBuckets := rhs.minBuckets,
       buckets := List.replicate (rhs.lfNum * rhs.size / rhs.lfDen + 1) [],
+      bcaps := List.replicate (rhs.lfNum * rhs.size / rhs.lfDen + 1) 0,
       eraseThreshold := rhs.eraseThreshold }
 
 /-- `swap`: everything but `m_loadFactor` and the `const m_minBuckets` changes sides -/
